@@ -490,6 +490,17 @@ func (C07) AfterCall(w *World, c *Call) {
 			return
 		}
 	}
+	// reach per test function and outcome (a test that never matches anywhere is a generator bug)
+	for _, tc := range c.Tests {
+		switch {
+		case tc.IsErr:
+			w.probe("test_" + tc.Name + "_error")
+		case tc.Truthy:
+			w.probe("test_" + tc.Name + "_matched")
+		default:
+			w.probe("test_" + tc.Name + "_not_matched")
+		}
+	}
 	v := func(oracle, fp, msg string) { w.Violate("C07", oracle, "C07."+fp, msg) }
 	routings := w.sprintRoutings(c)
 	segs := operandSegments(c.Tests)
